@@ -69,6 +69,7 @@ def run(repo, rep, tier):
     _linear(repo, rep)
     _own_exprs(repo, rep)
     _binders(repo, rep)
+    rewriter_total(repo, rep)
     # string: expressions find their ${...} with the interpolator's
     # patterns (a substitution may span lines): C06 owns the loop rules
     from . import c06
@@ -984,3 +985,82 @@ def tales_details(repo, rep, rule="R04.2"):
               "is empty (a name without a dot has no second part)",
               construct="relative-name-first-part", where=L.where(rd),
               detail=str([src(n) for n in idx]))
+
+
+REWRITER_FIELDS = {
+    # handler -> fields of the node (and of its arguments / generators) whose
+    # sub-expressions have to pass the rewriter
+    "visit_FunctionDef": ("decorator_list", "defaults", "kw_defaults",
+                          "posonlyargs", "args", "kwonlyargs", "vararg",
+                          "kwarg", "body"),
+    "visit_Lambda": ("defaults", "kw_defaults", "posonlyargs", "args",
+                     "kwonlyargs", "vararg", "kwarg", "body"),
+    "_visit_comprehension": ("iter", "ifs", "key", "value", "elt"),
+}
+
+
+def rewriter_total(repo, rep, rule="R04.6"):
+    """The scope-aware handlers replace generic_visit: whatever they do not
+    visit themselves is not rewritten at all (a name in a lambda body, a
+    comprehension's condition or a decorator would be looked up as a Python
+    global).  Every expression field of the node reaches self.visit(), the
+    results that replace a field are stored back, and the names the node
+    binds are registered in the scope."""
+    ci = repo.cls("chameleon.astutil.NameLookupRewriteVisitor")
+    for hname, fields in sorted(REWRITER_FIELDS.items()):
+        m = ci.methods.get(hname)
+        if m is None:
+            raise AnalysisError("%s vanished" % hname)
+        visited = set()
+        binds = {}
+        for n in ast.walk(m.node):
+            if isinstance(n, (ast.For, ast.comprehension)):
+                for x in ast.walk(n.target):
+                    if isinstance(x, ast.Name):
+                        binds.setdefault(x.id, []).append(n.iter)
+        for c in ast.walk(m.node):
+            if isinstance(c, ast.Call) and src(c.func) == "self.visit" and \
+                    c.args:
+                exprs = [c.args[0]]
+
+                def binder(name, at):
+                    """iterable of the nearest enclosing loop / generator
+                    that binds ``name``"""
+                    a_ = getattr(at, "_parent", None)
+                    while a_ is not None and a_ is not m.node:
+                        if isinstance(a_, ast.For) and any(
+                                isinstance(x, ast.Name) and x.id == name
+                                for x in ast.walk(a_.target)):
+                            return a_.iter
+                        if isinstance(a_, (ast.ListComp, ast.GeneratorExp,
+                                           ast.SetComp, ast.DictComp)):
+                            for g in a_.generators:
+                                if any(isinstance(x, ast.Name) and
+                                       x.id == name
+                                       for x in ast.walk(g.target)):
+                                    return g.iter
+                        a_ = getattr(a_, "_parent", None)
+                    return None
+                if isinstance(c.args[0], ast.Name):
+                    it_ = binder(c.args[0].id, c)
+                    if it_ is not None:
+                        exprs.append(it_)
+                for e in exprs:
+                    for x in ast.walk(e):
+                        if isinstance(x, ast.Attribute):
+                            visited.add(x.attr)
+        missing = [f for f in fields if f not in visited]
+        rep.check(not missing, rule, m.qualname, "every expression field "
+                  "of the node passes the rewriter (%s)" % ", ".join(fields),
+                  construct="rewriter-total:" + hname, where=L.where(m),
+                  detail="not visited: %s" % missing)
+    # names the constructs bind are registered in the current scope
+    for hname, what in (("visit_alias", "name"), ("visit_FunctionDef", "name"),
+                        ("visit_Name", "id"), ("_visit_comprehension", "id")):
+        m = ci.methods.get(hname)
+        adds = [c for c in ast.walk(m.node) if isinstance(c, ast.Call)
+                and isinstance(c.func, ast.Attribute)
+                and c.func.attr == "add" and "scope" in src(c.func.value)]
+        rep.check(bool(adds), rule, m.qualname, "%s registers the name it "
+                  "binds in the scope" % hname,
+                  construct="binds-registered:" + hname, where=L.where(m))
